@@ -7,10 +7,12 @@ package parser
 // directly.
 
 import (
-	"regexp"
 	"go/ast"
 	"go/token"
 	"go/types"
+	"regexp"
+
+	"github.com/reedom/convergen/pkg/option"
 )
 
 // VerifEntry names a converter interface and its marker.
@@ -34,4 +36,56 @@ func VerifFile(p *Parser) *ast.File { return p.file }
 // VerifRegexps returns the compiled directive / notation / marker expressions.
 func VerifRegexps() (goBuildGen, notation, convergen *regexp.Regexp) {
 	return reGoBuildGen, reNotation, reConvergen
+}
+
+// VerifNotationResult is what one notation line did to a fresh (method-level) option set.
+type VerifNotationResult struct {
+	Err       string
+	Literals  [][2]string // destination path, literal text
+	Maps      [][2]string // source path, destination path
+	Convs     [][3]string // function, source path, destination path
+	Style     string
+	Receiver  string
+	ExactCase bool
+}
+
+// VerifParseNotation runs the real parseNotationInComments on one method-level notation line.
+func VerifParseNotation(text string) VerifNotationResult {
+	p := &Parser{fset: token.NewFileSet()}
+	opts := option.NewOptions()
+	err := p.parseNotationInComments([]*ast.Comment{{Slash: token.NoPos, Text: text}}, option.ValidOpsMethod, &opts)
+	var res VerifNotationResult
+	if err != nil {
+		res.Err = err.Error()
+		if res.Err == "" {
+			res.Err = "<error>"
+		}
+	}
+	for _, l := range opts.Literals {
+		res.Literals = append(res.Literals, [2]string{verifPath(l.Dst()), l.Literal()})
+	}
+	for _, m := range opts.NameMapper {
+		res.Maps = append(res.Maps, [2]string{verifPath(m.Src()), verifPath(m.Dst())})
+	}
+	for _, m := range opts.TemplatedNameMapper {
+		res.Maps = append(res.Maps, [2]string{verifPath(m.Src()), verifPath(m.Dst())})
+	}
+	for _, c := range opts.Converters {
+		res.Convs = append(res.Convs, [3]string{c.Converter(), verifPath(c.Src()), verifPath(c.Dst())})
+	}
+	res.Style = opts.Style.String()
+	res.Receiver = opts.Receiver
+	res.ExactCase = opts.ExactCase
+	return res
+}
+
+func verifPath(m *option.IdentMatcher) string {
+	s := ""
+	for i := 0; i < m.PathLen(); i++ {
+		if i > 0 {
+			s += "."
+		}
+		s += m.ExprAt(i)
+	}
+	return s
 }
